@@ -234,7 +234,8 @@ func ZZ_C12_ServerHistory() {
 			break
 		}
 		ch, _ := s.r.Chain()
-		name := ch[zzConcretize(zzChoice("name", len(ch)))]
+		pool := append(append([]string{}, ch...), "volume-snap-nosuch.img", "")
+		name := pool[zzConcretize(zzChoice("name", len(pool)))]
 		var err error
 		opname := ""
 		switch zzConcretize(zzChoice("op", 9)) {
@@ -285,6 +286,9 @@ func ZZ_C12_ServerHistory() {
 				}
 			}
 		}
+		// only close / delete detach the replica; a refused or failed request leaves it where
+		// it was (CloseOpen re-opens it, or stops the history when the open is refused)
+		zzAssert(s.r != nil || opname == "CloseOpen", "C12.server.replica-dropped-by-"+opname)
 		if s.r == nil {
 			break
 		}
